@@ -238,6 +238,8 @@ func (n *Namer) Name(rel string) string {
 		return "I"
 	case strings.HasPrefix(rel, "index.json") && !strings.Contains(rel, "/"):
 		return "IT"
+	case strings.HasPrefix(rel, "oci-layout") && !strings.Contains(rel, "/"):
+		return "LT"
 	case rel == "blobs" || rel == "blobs/sha256" || rel == "ingest":
 		return rel
 	case strings.HasPrefix(rel, "blobs/sha256/"):
